@@ -41,6 +41,16 @@ Theorem c15_exists_exact :
 Proof. exact (conj c15_exists_sqlite c15_exists_cosmos). Qed.
 Print Assumptions c15_exists_exact.
 
+(* ---- Exists under read faults (cosmosdb): with a healthy service the reply-based transcription is Exists;
+        it answers "false" only when the service answered 404 and "true" only when it returned the item, so
+        every other failed read (409, 410, 412, 429, 5xx, transport errors) surfaces as an error *)
+Theorem c15_exists_under_faults :
+  (forall s id, cs_exists_reply (store_reply s id) = Some (cs_exists s id)) /\
+  (forall r, cs_exists_reply r = Some false -> r = RStatus 404) /\
+  (forall r, cs_exists_reply r = Some true -> r = RFound).
+Proof. exact (conj cs_exists_healthy (conj cs_exists_false_only_on_404 cs_exists_true_only_on_found)). Qed.
+Print Assumptions c15_exists_under_faults.
+
 (* ---- Search: an invalid (empty) filter is rejected without a stream; otherwise the stream carries, newest
         submission first (ties in any order), exactly the stored plans matching all given filters, each once,
         with their stored projection, and is then closed; nothing else is ever sent. *)
@@ -240,3 +250,11 @@ Example ex_S8_1754_for_an_unset_time_is_refuted :
   check_case (ex_S8_obs (-6795364578871345152)) = [2; 1; 5]%nat /\
   check_case (ex_S8_obs Z0) = [0]%nat.
 Proof. vm_compute. repeat split; reflexivity. Qed.
+
+(* seeded change C15-f: 410 Gone treated as not found: Exists answers false for a stored plan *)
+Example ex_exists_false_on_410_is_refuted :
+  check_case (ex_case Cosmos 1
+    [TOp (OCreate (ex_row 1 7 30 0 Z0 Z0)) true (Some (set_swarm 1 (ex_row 1 7 30 0 Z0 Z0)));
+     TExistsFault (RStatus 410) 1 0]) = [2; 1; 10]%nat /\
+  check_case (ex_case Cosmos 1 [TExistsFault (RStatus 410) 1 2; TExistsFault (RStatus 404) 1 0; TExistsFault RFailed 1 2]) = [0]%nat.
+Proof. vm_compute. split; reflexivity. Qed.
